@@ -16,6 +16,65 @@ CHECKS = {
     ),
 }
 
+
+META_NOTE = ('trusted: TLC; the projection written by vt/adapters/meta.py through the public API (select_many, '
+             'navigate_many from every handle over every association in both directions, getattr); the creation '
+             'bounds of the exhaustive models')
+CHECKS.update({
+    'C02': dict(
+        technique='TLA+ spec Meta.tla model-checked per association shape (invariants Symmetric, OnlyLive, Bounded, '
+                  'RefReadOK; action property RejectedIsNoop); transition tours, simulated and random histories '
+                  'replayed on a real MetaModel; every recorded step validated by TLC (MetaTrace.tla)',
+        text='For nine association shapes TLC enumerates every history of new/relate/unrelate/delete (both argument '
+             'orders, with and without phrase, unknown numbers and phrases, None arguments, repeated delete) within small '
+             'creation bounds and checks symmetry, liveness, multiplicity bounds and that rejected calls change nothing. '
+             'Tours over that state graph, simulated histories (4 per class) and random 200-call histories are executed '
+             'on the real library; after every call the outcome, pools, both navigation directions from every handle and '
+             'all attribute reads must equal the post-state of the specification action.',
+        design_ref='DESIGN.md §3.2, §4 C02', note=META_NOTE),
+    'C09': dict(
+        technique='observation operators of MetaObs.tla (Select, NavChain, NavSubtype, StableSort) evaluated by TLC on '
+                  'the specification state after every step of Meta.tla histories and compared with what the real '
+                  'select_*/navigate_* calls returned',
+        text='Queries and navigation are pure observations of the model state, so they are specified as relational '
+             'operators and compared in every state the C02 histories, simulation and value-writing random histories '
+             'reach: about three randomly composed queries/chains per step, with ties, reverse orderings, filters in '
+             'any order, chains through association classes and reflexive phrases, all start forms.',
+        design_ref='DESIGN.md §3.2, §4 C09', note=META_NOTE),
+    'C10': dict(
+        technique='Meta.tla value alphabet (VSetAttr, VDelAttr, ...) model-checked exhaustively on a class with plain, '
+                  'identifying and referential two-letter-stem attributes; tours replayed with rotating spellings; reads '
+                  'under five spellings, serialisation and where_eq validated by TLC against the single stored value',
+        text='The specification stores one value per declared name and has no spelling parameter at all; the adapter issues '
+             'every call under a rotating spelling and reads back under all spellings, so any dependence of the code on the '
+             'spelling shows as a mismatch with the specification state.',
+        design_ref='DESIGN.md §3.2, §4 C10', note=META_NOTE),
+    'C11': dict(
+        technique='MetaObs.tla AssocViolations / IdViolations / Consistent / SubtypeViolations evaluated by TLC on every '
+                  'state of Meta.tla histories and compared with xtuml.check_* / is_consistent',
+        text='The counts are defined relationally over the specification state (partner count outside multiplicity and '
+             'conditionality per instance and end; null identifying values plus repeated identifiers) and compared after '
+             'every step of exhaustive tours over all shapes and of histories with explicit null and repeated identifiers, '
+             'for the unrestricted check and for every restriction by number or class.',
+        design_ref='DESIGN.md §3.2, §4 C11', note=META_NOTE),
+    'C16': dict(
+        technique='Meta.tla on the reflexive 1C:1C shape: every arrangement of up to 5 (quick) / 6 (thorough) instances into '
+                  'chains and rings is a TLC state; a tour visits every state; sort_reflexive results validated by TLC '
+                  'with the predicate MetaTrace!SortOK',
+        text='All link arrangements of a small pool are enumerated by the model checker rather than sampled, every one is '
+             'built on the real library, and in each the sort is asked for both phrases on the whole pool and on subsets; '
+             'larger pools (6-12) by random chain/ring constructions. Termination is enforced by a per-call time budget.',
+        design_ref='DESIGN.md §3.2, §4 C16', note=META_NOTE),
+    'C19': dict(
+        technique='Meta.tla value alphabet (VNew over all typed positional/keyword mixes, VGenNext, VGenPeek) model-checked '
+                  'with the integer and a user generator (invariant FreshIds, action property DefaultsOK); tours and '
+                  'random creation sequences (also with the uuid generator) validated by TLC with IdsOK',
+        text='Every mix of positional, keyword and omitted arguments of a small class is an action instance of the model, so '
+             'the tours execute all of them on the real library in every generator state; freshness of defaulted ids is '
+             'checked against the set of all ids seen so far in the trace.',
+        design_ref='DESIGN.md §3.2, §4 C19', note=META_NOTE),
+})
+
 NOT_YET = {}
 
 
